@@ -100,6 +100,7 @@ type vConn struct {
 }
 
 var errVerifBroken = errors.New("verif: broken pipe")
+var errVerifCause = errors.New("verif: the caller gave up (cancellation cause)")
 
 func newVConn(l *vLog) *vConn {
 	return &vConn{log: l, rd: make(chan vRead, 256), closed: make(chan struct{}), faults: map[int]string{}}
@@ -327,7 +328,7 @@ type vScenario struct {
 
 type vCallState struct {
 	ctx    context.Context
-	cancel context.CancelFunc
+	cancel func()
 	wireID string
 	done   chan struct{}
 }
@@ -694,8 +695,10 @@ func (r *vRun) startCall(k string) {
 // newCall registers call k; its context carries the values of parent (for a call made from inside a handler:
 // whatever the SDK put into the handler's context) but is cancelled only by the script's `cancel` step.
 func (r *vRun) newCall(parent context.Context, k string) *vCallState {
-	ctx, cancel := context.WithCancel(context.WithoutCancel(parent))
-	st := &vCallState{ctx: ctx, cancel: cancel, done: make(chan struct{})}
+	// the caller's context carries a cancellation CAUSE of its own: the call must still end with the context's error
+	// (ctx.Err(), i.e. context.Canceled), which is what callers test for
+	ctx, cancelCause := context.WithCancelCause(context.WithoutCancel(parent))
+	st := &vCallState{ctx: ctx, cancel: func() { cancelCause(errVerifCause) }, done: make(chan struct{})}
 	r.mu.Lock()
 	r.calls[k] = st
 	r.mu.Unlock()
